@@ -7,10 +7,15 @@
 //     cfgs   = hex config texts joined by ','   ("-" = empty text is still one load; "" = no load)
 //     chunks = <parent>:<hex sqf> joined by ','  (parent = index of the chunk whose lookup path is a
 //              prefix of this one's, or -1; used only to skip chunks below a lookup that hung)
+//              histories (values kept across loads) use two more kinds of item in the same list, run in order on the one VM:
+//                L:<hex cfg>  a further config text is loaded NOW (between two scripts, the way a second
+//                             sqfvm_load_config arrives between two sqfvm_call); its result stands in the chunk's place
+//                K:<hex sqf>  a script whose effects on the VM (global variables, configparse__) the later items rely on
 // stdout, one line per case:  R \t <loads> \t <chunk results joined by \t>
 //     loads  = per load  ok:<codes> | fail:<codes> | HANG | CRASH:<sig>   joined by ','
 //              (after HANG/CRASH nothing else is run: the state of the host is unknown)
 //     chunk  = <hex of diag_log lines joined by \n>:<codes>  |  TIMEOUT | CRASH:<sig> | SKIP | NORUN
+//              (an L item: ok:<codes> | fail:<codes> | HANG | CRASH:<sig>)
 //
 // Every case runs in a forked child with a watchdog.  When that child hangs or dies the
 // case is re-run in "careful" mode: every load and every chunk in its own grandchild, so
@@ -19,7 +24,7 @@
 #include <cstdlib>
 using namespace vh;
 
-struct Chunk { int parent; std::string sqf; };
+struct Chunk { int parent; std::string sqf; char kind = 'C'; };   // kind: C lookup chunk, L config text, K script with effects
 // address-space cap per child (MB); none under AddressSanitizer, whose shadow mappings need the room
 #ifdef __SANITIZE_ADDRESS__
 static const size_t MEM_MB = 0;
@@ -74,7 +79,8 @@ static std::string fast(const std::vector<std::string>& cfgs, const std::vector<
     for (size_t k = 0; k < cfgs.size(); k++) { if (k) loads += ","; loads += do_load(vm, cfgs[k], k); }
     std::string res = "R\t" + loads;
     // one VM, one script per chunk (each script is its own context; the config host persists)
-    for (auto& c : chunks) res += "\t" + run_script(vm, c.sqf);
+    size_t k = cfgs.size();
+    for (auto& c : chunks) res += "\t" + (c.kind == 'L' ? do_load(vm, c.sqf, k++) : run_script(vm, c.sqf));
     return res;
 }
 
@@ -98,9 +104,25 @@ static std::string careful(const std::vector<std::string>& cfgs, const std::vect
     }
     std::string res = "R\t" + loads;
     std::vector<int> hung(chunks.size(), 0);
+    size_t nload = cfgs.size();
     for (size_t i = 0; i < chunks.size(); i++)
     {
         if (dead) { res += "\tNORUN"; continue; }
+        if (chunks[i].kind != 'C')
+        {
+            // an item with effects: tried in a grandchild first, repeated here only when it returned there
+            bool isload = chunks[i].kind == 'L';
+            auto probe = forked([&]() -> std::string { return isload ? do_load(vm, chunks[i].sqf, nload) : run_script(vm, chunks[i].sqf); }, step_ms * 10, MEM_MB);
+            bool bad = probe == "TIMEOUT" || probe.rfind("CRASH", 0) == 0 || probe.rfind("EXIT", 0) == 0 || probe == "OOM" || probe.rfind("EXCEPTION", 0) == 0;
+            if (bad)
+            {
+                for (auto& ch : probe) if (ch == '\t') ch = ':';
+                res += "\t" + (isload && probe == "TIMEOUT" ? std::string("HANG") : probe); dead = true; continue;
+            }
+            res += "\t" + (isload ? do_load(vm, chunks[i].sqf, nload) : run_script(vm, chunks[i].sqf));
+            if (isload) nload++;
+            continue;
+        }
         int p = chunks[i].parent;
         if (p >= 0 && (size_t)p < i && hung[(size_t)p]) { hung[i] = 1; res += "\tSKIP"; continue; }
         auto r = forked([&]() -> std::string { return run_script(vm, chunks[i].sqf); }, step_ms, MEM_MB);
@@ -128,6 +150,7 @@ int main(int argc, char** argv)
         {
             auto p = c.find(':');
             if (p == std::string::npos) { chunks.push_back({ -1, unhex(c) }); continue; }
+            if (p == 1 && (c[0] == 'L' || c[0] == 'K')) { chunks.push_back({ -1, unhex(c.substr(2)), c[0] }); continue; }
             chunks.push_back({ atoi(c.substr(0, p).c_str()), unhex(c.substr(p + 1)) });
         }
         auto r = forked([&]() -> std::string { return fast(cfgs, chunks); }, case_ms, MEM_MB);
